@@ -58,14 +58,22 @@ func validSpec(vendor, class string, devs []string, tag string) *specs.Spec {
 	return s
 }
 
+var repeatLast16 bool // scenario variant: the last configured directory repeats the first one (in another spelling)
+
 // c16Write runs one write / refresh / remove / remove-again scenario under root.
 func c16Write(root string, idx int, dirSpellings []string, lastMissing bool, vendor, class, name string, preexisting bool, lowerShadow bool) hx.Case {
 	base := filepath.Join(root, fmt.Sprintf("w%d", idx))
 	_ = os.MkdirAll(base, 0o755)
 	// the configured directories: spelling i is applied to base/d<i>
 	dirs := make([]string, len(dirSpellings))
+	realOf := func(i int) string {
+		if repeatLast16 && i == len(dirSpellings)-1 && i > 0 {
+			return filepath.Join(base, "d0", "cdi") // the last configured directory is the first one again
+		}
+		return filepath.Join(base, fmt.Sprintf("d%d", i), "cdi")
+	}
 	for i, sp := range dirSpellings {
-		real := filepath.Join(base, fmt.Sprintf("d%d", i), "cdi")
+		real := realOf(i)
 		if !(lastMissing && i == len(dirSpellings)-1) {
 			_ = os.MkdirAll(real, 0o755)
 		}
@@ -75,7 +83,10 @@ func c16Write(root string, idx int, dirSpellings []string, lastMissing bool, ven
 	// pre-existing content: unrelated vendor in every existing directory, an optional lower-priority definition
 	// of the same devices, an optional previous version of the target file
 	for i := range dirs {
-		real := filepath.Join(base, fmt.Sprintf("d%d", i), "cdi")
+		real := realOf(i)
+		if repeatLast16 && i == len(dirs)-1 && i > 0 {
+			continue // populated as directory 0 already
+		}
 		if _, err := os.Stat(real); err == nil {
 			writeSpecFile(filepath.Join(real, "other.json"), validSpec("other.org", "thing", []string{"x"}, fmt.Sprintf("other%d", i)))
 			_ = os.WriteFile(filepath.Join(real, "README"), []byte("not a spec"), 0o644)
@@ -229,7 +240,11 @@ func genC16(r *hx.R, tier string, scratch string) (*hx.Suite, error) {
 			name, _ = cdi.GenerateNameForTransientSpec(raw, hx.Pick(r, tids))
 		}
 		name += hx.Pick(r, exts)
-		s.Add(c16Write(scratch, i, sp, r.Chance(0.3), v, c, name, r.Chance(0.3), r.Chance(0.4)))
+		repeatLast16 = nd >= 2 && r.Chance(0.2)
+		lastMissing := r.Chance(0.3) && !repeatLast16
+		lower := r.Chance(0.4) && !repeatLast16 // a "lower" definition in the repeated directory would be a same-directory conflict
+		s.Add(c16Write(scratch, i, sp, lastMissing, v, c, name, r.Chance(0.3), lower))
+		repeatLast16 = false
 	}
 	return s, nil
 }
